@@ -96,7 +96,12 @@ func (e *Encoder) writeValue(val reflect.Value, tagType byte) error {
 	case TagInt:
 		return writeInt32(e.w, int32(intValue(val)))
 	case TagFloat:
-		return writeInt32(e.w, int32(math.Float32bits(float32(val.Float()))))
+		f := float32(val.Float())
+		if val.CanInterface() {
+			// the trip through float64 above quiets a signalling NaN; this one keeps the bits
+			f = val.Convert(reflect.TypeOf(f)).Interface().(float32)
+		}
+		return writeInt32(e.w, int32(math.Float32bits(f)))
 	case TagLong:
 		return writeInt64(e.w, intValue(val))
 	case TagDouble:
